@@ -616,4 +616,21 @@ theorem C20_report_site_argument_order :
       ("expparse.y", "SYNTAX", ["&sym", "\"Syntaxerror\"", "CURRENT_SCOPE_TYPE_PRINTABLE", "CURRENT_SCOPE_NAME"])] := by
   rfl
 
+/-- is the `limits` warning WARN_SMALL_REAL enabled after option processing -/
+def limitsProbe (c : Config) : Option Bool :=
+  match c with
+  | .ok ov => some (enabled ov LibErrors.WARN_SMALL_REAL)
+  | _ => none
+
+/-- `_witness` — **what the regenerated `switchResetsAll = false` excludes**: in the other form of the option loop (every `-w` / `-i` first
+    switches all classes on again) a later switch undoes an earlier `-w`: after `-w limits -w invalid_case` the `limits` warning is
+    enabled again, whereas the loop as it is keeps it suppressed — and with ONE switch the two forms agree.  (`C20_switch_with_without`
+    and `C20_switch_local_command` are theorems about the form as it is; they unfold `configure` with the constant.) -/
+theorem C20_reset_per_switch_undoes_earlier_witness :
+    limitsProbe (applySwitches LibErrors.setWarningNullGuard [⟨.w, "limits"⟩, ⟨.w, "invalid_case"⟩] initOverrides) = some false ∧
+    limitsProbe (applySwitchesReset LibErrors.setWarningNullGuard [⟨.w, "limits"⟩, ⟨.w, "invalid_case"⟩] initOverrides) = some true ∧
+    limitsProbe (applySwitches LibErrors.setWarningNullGuard [⟨.w, "limits"⟩] initOverrides) =
+      limitsProbe (applySwitchesReset LibErrors.setWarningNullGuard [⟨.w, "limits"⟩] initOverrides) := by
+  decide
+
 end StepModel.Express.C20
